@@ -21,6 +21,67 @@ def run(ctx: common.Ctx):
     probe_ancestor_into_descendant(ctx)
     probe_whole_field_refusals(ctx)
     probe_mapping_batch_refusals(ctx)
+    probe_extended_slice_refusals(ctx)
+
+
+def probe_extended_slice_refusals(ctx: common.Ctx):
+    """raw_xs[a:b:k] = values (k != 1, replaced element by element) and raw_xs[a:b] = values with a node that is
+    still attached elsewhere at ANY position of the batch - the first, a middle or the last one: the whole call is
+    refused and nothing was replaced, removed or detached."""
+    import copy, random
+    from autobean_refactor.models import base
+    from harness import gen_docs, treewalk
+    fixed = ['2000-01-01 * "n" #t1 ^l1 #t2 ^l2 #t3\n  Assets:A  1 USD\n  Assets:B  2 USD\n  Assets:C  3 USD\n  Assets:D\n'
+             '2000-01-02 * "m" #u1 ^k1 #u2\n  Assets:E  1 USD\n  Assets:F\n2000-01-03 open Assets:G USD, EUR, GBP, JPY\n']
+    for k in range(ctx.scale(40, 300)):
+        r = random.Random(ctx.rng.randrange(1 << 30))
+        text = fixed[0] if k % 2 == 0 else gen_docs.ledger(r)
+        f = gen_docs.parse_ok(text, True)
+        if f is None:
+            continue
+        lists = []
+        for path, m in treewalk.walk(f):
+            if isinstance(m, base.RawTreeModel):
+                for name, kind, _ in c03.slots_of(m):
+                    if kind == 'rep':
+                        try:
+                            w = getattr(m, name)
+                            if len(w) >= 2:
+                                lists.append((path, m, name, w))
+                        except Exception:
+                            pass
+        if not lists:
+            continue
+        path, m, name, w = r.choice(lists)
+        n = len(w)
+        step = r.choice([2, 2, -1, -2, 3, 1])
+        sl = slice(None, None, step) if step != 1 else slice(0, r.randint(1, n))
+        idx = list(range(n))[sl]
+        if len(idx) < 2:
+            continue
+        donors_pool = [x for p2, m2, n2, w2 in lists if w2 is not w for x in w2 if type(x) in {type(y) for y in w}]
+        if not donors_pool:
+            donors_pool = [x for i, x in enumerate(w) if i not in idx]       # an element of the same list outside the slice
+        if not donors_pool:
+            continue
+        bad_at = r.randrange(len(idx))
+        vals = [copy.deepcopy(w[i]) for i in idx]
+        vals[bad_at] = r.choice(donors_pool)
+        before = (gen_docs.print_model(f), [id(t) for t in f.token_store], treewalk.dump(f), [id(x) for x in w])
+        wit = {'text': text, 'list': f'{path}.{name}', 'slice': [sl.start, sl.stop, sl.step], 'attached_at': bad_at, 'of': len(idx)}
+        ctx.count('extended_slice_refusal_probes')
+        ctx.dist('ext-slice-step=' + str(step))
+        try:
+            w[sl] = vals
+        except ValueError:
+            after = (gen_docs.print_model(f), [id(t) for t in f.token_store], treewalk.dump(f), [id(x) for x in w])
+            if after != before:
+                ctx.monitor_failure(c03.SIG_ATOMIC, f'{path}.{name}[{sl.start}:{sl.stop}:{sl.step}] = batch with an attached node at position '
+                                    f'{bad_at} of {len(idx)} was refused, but the document now prints {after[0][:120]!r}', wit)
+        except Exception as e:
+            ctx.monitor_failure(c03.SIG_ATOMIC, f'{path}.{name}[...] = batch with an attached node raised {type(e).__name__}: {e}', wit)
+        else:
+            ctx.monitor_failure(c03.SIG_REUSE, f'{path}.{name}[{sl.start}:{sl.stop}:{sl.step}] = batch with a node attached elsewhere was accepted', wit)
 
 
 def probe_mapping_batch_refusals(ctx: common.Ctx):
@@ -29,15 +90,24 @@ def probe_mapping_batch_refusals(ctx: common.Ctx):
     import datetime, random
     from decimal import Decimal
     from autobean_refactor import models
+    from autobean_refactor.models import base as base_
     from harness import gen_docs, treewalk
     texts = ['2000-01-01 open Assets:Foo USD\n    aa: 1\n    bb: "x"\n2000-01-02 close Assets:Foo\n    cc: Assets:Bar\n',
+             # the same key twice: meta[key] = ... writes to the FIRST item, so the value node of the second one is "elsewhere"
+             '2000-01-01 open Assets:Foo USD\n    aa: Assets:One\n    aa: Assets:Two\n    bb: 2000-01-01\n    bb: 2000-01-02\n2000-01-02 close Assets:Foo\n',
              '2000-01-01 *\n    aa: 1\n    Assets:A  1 USD\n      pp: 2000-01-01\n    Assets:B\n2000-01-02 close Assets:A\n']
     for k in range(ctx.scale(30, 200)):
         r = random.Random(ctx.rng.randrange(1 << 30))
         text = r.choice(texts)
         f = gen_docs.parse_ok(text, True)
         holders = [(p, m) for p, m in treewalk.walk(f) if hasattr(m, 'meta') and hasattr(m, 'raw_meta') and p != 'root']
-        meta_values = {id(it.raw_value) for _, h in holders for it in h.raw_meta}
+        meta_values = set()
+        for _, h in holders:
+            first = {}
+            for it in h.raw_meta:
+                if it.key not in first:            # only the FIRST item of a key holds "the key's own current value"
+                    first[it.key] = it
+                    meta_values.add(id(it.raw_value))
         # (a key's own current value assigned back to it is a no-op, not a reuse: such nodes are not used as "attached")
         attached = [m for _, m in treewalk.walk(f) if isinstance(m, (models.Account, models.Date, models.NumberExpr))
                     and m.token_store is f.token_store and id(m) not in meta_values]
@@ -56,6 +126,21 @@ def probe_mapping_batch_refusals(ctx: common.Ctx):
         else:
             vals = [r.choice(plain) for _ in keys]
             vals[bad_at] = r.choice(attached)
+            seen_k, dups = {}, []
+            for it in m.raw_meta:
+                if it.key in seen_k and isinstance(it.raw_value, base_.RawModel):
+                    dups.append(it)
+                seen_k.setdefault(it.key, it)
+            if dups and r.random() < 0.6:
+                # hand a repeated key the value node of its SECOND item, after at least one other key
+                it = r.choice(dups)
+                bad_at = max(1, bad_at)
+                keys = [k_ for k_ in keys if k_ != it.key][:n - 1]
+                keys.insert(min(bad_at, len(keys)), it.key)
+                bad_at = keys.index(it.key)
+                vals = [r.choice(plain) for _ in keys]
+                vals[bad_at] = it.raw_value
+                n = len(keys)
         pairs = list(zip(keys, vals))
         arg = dict(pairs) if r.random() < 0.6 else pairs
         before = (gen_docs.print_model(f), [id(t) for t in f.token_store], treewalk.dump(f))
